@@ -318,3 +318,17 @@ where
         }
     }
 }
+
+#[cfg(feature = "verif")]
+#[allow(clippy::type_complexity)]
+impl<S: State + Clone, SP: StateSpace<StateType = S>, G: Goal<S>> RRTConnect<S, SP, G> {
+    /// Read-only snapshot of both search trees (start tree, goal tree).
+    pub fn verif_trees(&self) -> (Vec<(S, Option<usize>)>, Vec<(S, Option<usize>)>) {
+        let snap = |t: &Vec<Node<S>>| {
+            t.iter()
+                .map(|n| (n.state.clone(), n.parent_index))
+                .collect::<Vec<_>>()
+        };
+        (snap(&self.start_tree), snap(&self.goal_tree))
+    }
+}
